@@ -28,7 +28,8 @@ pub(super) fn derive_schema(input: TokenStream) -> syn::Result<TokenStream> {
         ) {
             (None, None, None) => schema_of_fields(
                 s.fields,
-                container_attrs.serde.rename_all.value()?.map(|(_, case)| *case)
+                container_attrs.serde.rename_all.value()?.map(|(_, case)| *case),
+                container_attrs.serde.default
             )?,
             (Some(t), _, _) | (_, Some(t), _) | (_, _, Some(t)) => {
                 let t = syn::parse_str::<Type>(t)?;
@@ -128,7 +129,7 @@ pub(super) fn derive_schema(input: TokenStream) -> syn::Result<TokenStream> {
         })
     }
 
-    fn schema_of_fields(fields: Fields, rename_all: Option<Case>) -> syn::Result<TokenStream> {
+    fn schema_of_fields(fields: Fields, rename_all: Option<Case>, default: bool) -> syn::Result<TokenStream> {
         match fields {
             Fields::Named(FieldsNamed { brace_token:_, named }) => {/* object */
                 let mut properties = Vec::with_capacity(named.len());
@@ -137,7 +138,6 @@ pub(super) fn derive_schema(input: TokenStream) -> syn::Result<TokenStream> {
 
                     if field_attrs.serde.skip
                     || field_attrs.serde.skip_serializing
-                    || field_attrs.serde.skip_deserializing
                     {
                         continue
                     }
@@ -165,7 +165,9 @@ pub(super) fn derive_schema(input: TokenStream) -> syn::Result<TokenStream> {
                     let inner_option = inner_Option(ty);
 
                     let is_optional_field = inner_option.is_some()
+                        || default/* of container */
                         || field_attrs.serde.default
+                        || field_attrs.serde.skip_deserializing/* written, but defaulted when reading */
                         || field_attrs.serde.skip_serializing_if.is_some();
 
                     let mut property_schema = {
@@ -381,7 +383,7 @@ pub(super) fn derive_schema(input: TokenStream) -> syn::Result<TokenStream> {
                         #schema_with()
                     }
                 } else {
-                    schema_of_fields(v.fields, rename_all)?
+                    schema_of_fields(v.fields, rename_all, false)?
                 };
 
                 /* the tag is a constant string, not a reference to a component */
